@@ -52,7 +52,10 @@ Vecs == { VecV("v_empty", <<>>), VecV("v_3", <<I(10), I(11), I(12)>>), VecV("v_b
 Tups == { TupV("t_empty", <<>>, TRUE), TupV("t_1", <<I(1)>>, TRUE), TupV("t_2", <<I(1), <<"str">>>>, TRUE), TupV("t_vec", <<<<"str">>>>, FALSE), TupV("t_heap", <<<<"str">>, <<"str">>>>, FALSE) }
 Maps == { [V("m_empty", "map", "HashMap") EXCEPT !.b = 0], [V("m_1", "map", "HashMap") EXCEPT !.b = 1], [V("m_self", "map", "HashMap") EXCEPT !.b = 1, !.st = "self"], [V("m_heap", "map", "HashMap") EXCEPT !.b = 1] }
 Ranges == { [V("r_03", "range", "Range") EXCEPT !.b = 0, !.e = 3, !.hash = TRUE], [V("r_30", "range", "Range") EXCEPT !.b = 3, !.e = 0, !.hash = TRUE],
-            [V("r_m21", "range", "Range") EXCEPT !.b = -2, !.e = -1, !.hash = TRUE], [V("r_11", "range", "Range") EXCEPT !.b = 1, !.e = 1, !.hash = TRUE] }
+            [V("r_m21", "range", "Range") EXCEPT !.b = -2, !.e = -1, !.hash = TRUE], [V("r_11", "range", "Range") EXCEPT !.b = 1, !.e = 1, !.hash = TRUE],
+            \* bounds at the ends of the integer domain (2^63 saturates to isize::MAX, -2^63 is isize::MIN); S!Huge stands for them
+            [V("r_0big", "range", "Range") EXCEPT !.b = 0, !.e = S!Huge, !.hash = TRUE], [V("r_nbig2", "range", "Range") EXCEPT !.b = -S!Huge, !.e = 2, !.hash = TRUE],
+            [V("r_m2big", "range", "Range") EXCEPT !.b = -2, !.e = S!Huge, !.hash = TRUE], [V("r_bignbig", "range", "Range") EXCEPT !.b = S!Huge, !.e = -S!Huge, !.hash = TRUE] }
 Classes == { [V("c_A", "class", "AClass") EXCEPT !.hash = TRUE], [V("c_String", "class", "StringClass") EXCEPT !.hash = TRUE],
              [V("c_Fiber", "class", "FiberClass") EXCEPT !.hash = TRUE], [V("c_Error", "class", "ErrorClass") EXCEPT !.hash = TRUE],
              [V("c_Vec", "class", "PlainClass") EXCEPT !.hash = TRUE], [V("c_Type", "class", "Type") EXCEPT !.hash = TRUE] }
@@ -302,6 +305,13 @@ Cases ==
                             \cup {c \in {C("invoke", nm, <<r, a, b>>) : r \in Rep, nm \in Arity2Names, a \in Rep, b \in Small} : c.name \in Methods(c.ops[1].cls) /\ c.name \notin Stateful}
                             \cup {C("index", "", <<x, i>>) : x \in Pool, i \in Pool} \cup {C("mapkey", "", <<x>>) : x \in Pool}
                             \cup {C("binop", op, <<x, y>>) : op \in {"+", "<", "=="}, x \in Rep, y \in Rep}
+      [] Form = "alias" -> \* an argument IS the receiver (the same object, not an equal one): borrows taken by the native must not conflict
+                           {c \in {C("invoke", nm, <<r, r>>) : r \in Pool, nm \in AllNames} : c.name \in Methods(c.ops[1].cls) \cup c.ops[1].fields}
+                           \cup {c \in {C("invoke", nm, <<r, r, a>>) : r \in Pool, nm \in Arity2Names, a \in Small} : c.name \in Methods(c.ops[1].cls)}
+                           \cup {c \in {C("invoke", nm, <<r, a, r>>) : r \in Pool, nm \in Arity2Names, a \in Small} : c.name \in Methods(c.ops[1].cls)}
+                           \cup {C("index", "", <<x, x>>) : x \in Pool} \cup {C("binop", op, <<x, x>>) : op \in {"+", "<", "=="}, x \in Pool}
+                           \cup {C("call", "", <<f, f>>) : f \in Pool}
+      [] Form = "iterate" -> {C("iternext", "", <<x>>) : x \in {v \in Pool : "iter" \in Methods(v.cls) /\ v.cls \notin {"DerString", "DerVec"}}}
       [] Form = "misc" -> {C(f, "", <<x>>) : f \in {"forin", "mapkey", "derive", "throw", "show"}, x \in Pool}
 
 Outcome(c) ==
@@ -320,7 +330,7 @@ Outcome(c) ==
       [] c.f = "forin" -> ForIn(o[1])
       [] c.f = "mapkey" -> MapKey(o[1])
       [] c.f = "derive" -> Derive(o[1])
-      [] c.f \in {"throw", "show"} -> OkR
+      [] c.f \in {"throw", "show", "iternext"} -> OkR
 
 Init == ncase \in Cases
 Next == UNCHANGED ncase
